@@ -116,3 +116,25 @@ package getsvc
 //@ callrule c23_v2_last_collaborators in (*execCtx).processV2Last
 //@   callee (*get.execCtx).headChild, (*get.execCtx).resolvePayloadRange, (*get.execCtx).ctxRange, (*get.execCtx).writeCollectedHeader, (*object.Object).Parent, (object.Object).Parent, (*object.Range).*, (*zap.Logger).*
 //@   pureeffect
+
+// ---- C23 (ranged read of an EC object with a lost part): the recovery reads the other parts
+// in full and gives up only when more parts are lost than the rule has parity parts. The part
+// whose failure started the recovery is counted first (the counter starts at one); a further
+// failure ends the recovery only if the count, with it, exceeds the parity number.
+//@ ghost pred failuresCountedWithThisOne() uint32
+//@ callrule c23_recovery_failure_count in (*Service).getRecoveryECPartRanges$1
+//@   property C23
+//@   callee (*atomic.Uint32).Add
+//@   pureeffect
+//@   defines result == failuresCountedWithThisOne()
+//@ callrule c23_recovery_collaborators in (*Service).getRecoveryECPartRanges$1
+//@   property C23
+//@   callee (*get.Service).readFullECPartRange, errors.Is, (*zap.Logger).*, zap.*, (context.Context).*
+//@   pureeffect
+//@ func (*Service).getRecoveryECPartRanges$1
+//@   property C23
+//@   ensures [recovery_gives_up_only_beyond_the_parity_budget] res0 != nil && !resultOf(res0, "*") && res0 != errInterrupt ==> failuresCountedWithThisOne() > uint32(rule.ParityPartNum)
+//@ callrule c23_recovery_counts_the_part_that_started_it in (*Service).getRecoveryECPartRanges
+//@   property C23
+//@   callee (*atomic.Uint32).Store
+//@   requires [the_lost_part_that_started_the_recovery_is_counted] a0 == 1
